@@ -178,8 +178,11 @@ def run(ctx: Any, prog: Program) -> None:
     ctx.check('C08.D3', set(made) == ALL_MGRS and len(ctor_names) == 1 and ok_vals, vm, init,
               f'VMF.__init__ must give every kind a manager built by the selected manager class (sharing one between kinds is fine); found {made}', text='six managers')
     sel = [n for n in walk_no_nested(init) if isinstance(n, ast.Assign) and isinstance(n.value, ast.IfExp) and 'IDMan' in ast.unparse(n.value)]
-    ok = len(sel) == 1 and ast.unparse(sel[0].value) == 'NullIDMan if preserve_ids else IDMan'
-    ctx.check('C08.D3', ok, vm, sel[0] if sel else init, 'uniqueness-enforcing IDMan must be used unless preserve_ids is set', text='manager class selection')
+    if len(sel) != 1 or dotted(sel[0].value.test) != 'preserve_ids':
+        ctx.shape('C08.D3', False, vm, sel[0] if sel else init, 'manager class selection on preserve_ids not recognised', text='manager class selection')
+    else:
+        ctx.check('C08.D3', dotted(sel[0].value.body) == 'NullIDMan' and dotted(sel[0].value.orelse) == 'IDMan', vm, sel[0], f'`{ast.unparse(sel[0].value)}`: the uniqueness-enforcing IDMan must be used unless preserve_ids is set',
+                  text='manager class selection')
     # ---- D4 --------------------------------------------------------------------------------------------
     for modname in ('vmf', 'instancing', 'bsp', 'packlist'):
         mod = prog.module(modname)
@@ -211,7 +214,7 @@ def run(ctx: Any, prog: Program) -> None:
     ok = 'if fix.id not in used_indexes' in src and 'used_indexes.add(fix.id)' in src
     loops = [n for n in walk_no_nested(fi) if isinstance(n, ast.For)]
     ok2 = any(isinstance(s, ast.Assign) and isinstance(s.targets[0], ast.Subscript) and dotted(s.targets[0].value) == 'self' for l in loops for s in ast.walk(l))
-    ctx.check('C08.D5', ok and ok2, vm, fi, 'EntityFixup.__init__ must keep an index only if unused so far and re-insert the rest through self[var] = value', text='init de-duplicates indexes')
+    ctx.shape('C08.D5', ok and ok2, vm, fi, 'EntityFixup.__init__ must keep an index only if unused so far and re-insert the rest through self[var] = value', text='init de-duplicates indexes')
     # the re-insertion must be deferred until every first-pass value is stored: __setitem__ picks the lowest index unused *so far*
     first_pass = [l for l in loops if 'used_indexes' in ast.unparse(l.body[0] if l.body else l)]
     early = [s for l in first_pass for s in ast.walk(l) if isinstance(s, ast.Assign) and isinstance(s.targets[0], ast.Subscript) and dotted(s.targets[0].value) == 'self']
